@@ -46,8 +46,8 @@ def run_model(c, coverage=False):
     return T.run_vectors("MC_Query", tlc_cfg(c), c["name"], lambda st: st["generated"] - st["distinct"])
 
 
-def _replay(lines, families, lockstep, repo, procs=16):
-    with core.pool(query_replay.worker_init, (repo,), procs) as p:
+def _replay(lines, families, lockstep, repo, procs=16, asrt=False):
+    with core.pool(query_replay.worker_init, (repo, asrt), procs) as p:
         size = max(50, min(4000, len(lines) // (procs * 4) + 1))
         parts = p.map(query_replay.replay_chunk, [(ch, families, lockstep) for ch in core.chunks(lines, size)])
     tot = {"n": 0, "same": 0, "attention": [], "per_kind": {}, "lockstep_diff": [], "dropped": 0}
@@ -80,6 +80,11 @@ def run(prop, tier, repo=None, families=("mixin", "light"),
             pairs = [(f.rsplit(":", 1)[1], f) for f in families if f.startswith("adv:")]
         tot = _replay(lines, list(families), pairs, repo)
         tot.update(config=c, tlc=stats, families=list(families), vectors=len(lines))
+        outcomes.append(tot)
+        # the same vectors with the library's internal assertions switched on (seeded third): none may fire
+        sub = lines[rnd.randrange(3)::3]
+        tot = _replay(sub, ["mixin", "light"], None, repo, asrt=True)
+        tot.update(config=c, tlc=stats, families=["mixin+assertions", "light+assertions"], vectors=len(sub))
         outcomes.append(tot)
         k = c["sample_others"]
         if k and others:
@@ -164,3 +169,4 @@ def classify(outcomes, res, prop):
             seen.add(out["tlc"]["key"])
             res.add_tlc(out["tlc"])
     res.extra["configs"] = [o["config"] for o in outcomes if o["families"][0] == "mixin"]
+    res.extra["also_with_ANYTREE_ASSERTIONS"] = sum(o["n"] for o in outcomes if o["families"][0].endswith("+assertions"))
